@@ -31,8 +31,7 @@ MUTANTS = [
      [(B, "        self.use_lock = threading.RLock()", "        self.use_lock = threading.RLock()\n        self.stack_lock = threading.Lock()"),
       (B, "    def get(self, backend=None, tensors=None):\n        with self.use_lock:\n            self.state, backend = self.state.get(backend, tensors)\n            return backend",
        "    def get(self, backend=None, tensors=None):\n        with self.stack_lock:\n            with self.use_lock:\n                self.state, backend = self.state.get(backend, tensors)\n                return backend")]),
-    ("C10", "state-mutated-in-place-by-enter", B, "    def enter(self, backend):\n        new_state = BackendRegistryState(self)\n        new_state._enter(backend)\n        return new_state",
-     "    def enter(self, backend):\n        self._enter(backend)\n        return self"),
+    # ("state-mutated-in-place-by-enter" was dropped: equivalent once every registry method holds the lock)
     # ---- C11 -------------------------------------------------------------------------------------
     ("C11", "min-priority", B, "max_priority = max(backend.priority for backend in backends)", "max_priority = min(backend.priority for backend in backends)"),
     ("C11", "outermost-with-wins", B, "            return self.use_stack[-1]", "            return self.use_stack[0]"),
@@ -48,7 +47,7 @@ MUTANTS = [
     # ---- C06 -------------------------------------------------------------------------------------
     ("C06", "cache-key-not-type-aware", "einx/_src/util/lru_cache.py", "        return type(x)\n", "        return None\n"),
     ("C06", "convertible-tensor-eq-ignores-kind", "einx/_src/tracer/signature/classical/tensor.py",
-     "            return self.origin == other.origin and self.concrete == other.concrete and self.shape == other.shape", "            return self.origin == other.origin and self.shape == other.shape",
+     "            return self.origin == other.origin and _freeze_value(self.concrete) == _freeze_value(other.concrete) and self.shape == other.shape", "            return self.origin == other.origin and self.shape == other.shape",
      [("einx/_src/tracer/signature/classical/tensor.py", "        return hash(self.shape) + hash(_freeze_value(self.concrete))", "        return hash(self.shape)")]),
     ("C06", "with-exit-skipped-on-exception", B, "    def __exit__(self, exc_type, exc_value, traceback):\n        self.registry.exit(self.backend)",
      "    def __exit__(self, exc_type, exc_value, traceback):\n        if exc_type is None:\n            self.registry.exit(self.backend)"),
@@ -59,7 +58,7 @@ MUTANTS = [
     ("C06", "backend-not-in-cache-key", "einx/_src/frontend/api.py", "        function, code = construct_graph_with_cache(args=args, kwargs=kwargs | {\"backend\": backend})",
      "        function, code = construct_graph_with_cache_for(backend.name.split(\".\")[0])(args=args, kwargs=kwargs)",
      [("einx/_src/frontend/api.py", "    construct_graph_with_cache = lru_cache(partial(_construct_graph, func=func))\n\n    @functools.wraps(func)\n    def inner(*args, backend=None, graph=False, **kwargs):",
-       "    _caches = {}\n    _backends = {}\n\n    def construct_graph_with_cache_for(key):\n        if key not in _caches:\n            _caches[key] = lru_cache(lambda args, kwargs: _construct_graph(args, kwargs, func=func, backend=_backends[key]))\n        return _caches[key]\n\n    @functools.wraps(func)\n    def inner(*args, backend=None, graph=False, **kwargs):"),
+       "    _caches = {}\n    _backends = {}\n\n    def construct_graph_with_cache_for(key):\n        if key not in _caches:\n            _caches[key] = lru_cache(lambda args, kwargs: _construct_graph(args, kwargs | {\"backend\": _backends[key]}, func=func))\n        return _caches[key]\n\n    @functools.wraps(func)\n    def inner(*args, backend=None, graph=False, **kwargs):"),
       ("einx/_src/frontend/api.py", "        backend.raise_on_import_failure()\n", "        backend.raise_on_import_failure()\n        _backends.setdefault(backend.name.split(\".\")[0], backend)\n")]),
     # ---- C13 -------------------------------------------------------------------------------------
     ("C13", "name-keyword-always-passed", "einx/_src/adapter/namedtensor_calltensorfactory.py", "            return has_var_kwargs or (\n                name in tensor.concrete.parameters",
